@@ -96,6 +96,9 @@ type inliner struct {
 	isClosure map[*ast.FuncDecl]bool
 	free      map[*ast.FuncDecl]map[string]types.Object // closure -> captured variables by name
 	doneIdent map[*ast.Ident]bool                       // function identifiers of the calls that were expanded
+	packs     map[ast.Expr][]ast.Expr                   // slice-literal template of a variadic parameter -> the caller's extra arguments
+	deferHelpers map[types.Object]*ast.FuncDecl         // new helpers with defers and no results: expandable where the call ends a function body
+	lastOfBody   map[ast.Stmt]bool
 }
 
 // inlineNewHelpers returns rewritten sources for the files in which a call of a
@@ -144,7 +147,7 @@ func inlineNewHelpers(p *Program) (map[string][]byte, []string) {
 				}
 			}
 		}
-		if len(in.helpers) == 0 {
+		if len(in.helpers) == 0 && len(in.deferHelpers) == 0 {
 			continue
 		}
 		type built struct {
@@ -244,6 +247,33 @@ func inlineNewHelpers(p *Program) (map[string][]byte, []string) {
 						removable[fd] = true
 						changed = true
 					}
+				}
+			}
+		}
+		// a call that survived in some copy of a body (an expression context the
+		// expansion does not reach) keeps its helper: the generated declarations that
+		// stay are searched for the helpers' names
+		for again := len(removable) > 0; again; {
+			again = false
+			names := map[string]bool{}
+			for _, bf := range files {
+				for _, d := range bf.nf.Decls {
+					if nd, ok := d.(*ast.FuncDecl); ok && removable[bf.origin[nd]] {
+						continue
+					}
+					ast.Inspect(d, func(n ast.Node) bool {
+						if id, ok := n.(*ast.Ident); ok {
+							names[id.Name] = true
+						}
+						return true
+					})
+				}
+			}
+			for fd, rm := range removable {
+				if rm && !in.isClosure[fd] && names[fd.Name.Name] {
+					// (the declaration's own name is only seen when it is kept)
+					removable[fd] = false
+					again = true
 				}
 			}
 		}
@@ -379,24 +409,52 @@ func defaultImportName(pk *packages.Package, path string) string {
 // eligible: a helper whose body can be expanded in place.
 func (in *inliner) eligible(fd *ast.FuncDecl, fo types.Object) bool {
 	sig := fo.Type().(*types.Signature)
-	if sig.Variadic() || sig.TypeParams() != nil || sig.RecvTypeParams() != nil {
+	if sig.TypeParams() != nil || sig.RecvTypeParams() != nil {
 		return false
+	}
+	if sig.Variadic() {
+		// the variadic parameter is bound to a slice literal of the extra arguments (see bind)
+		last := fd.Type.Params.List[len(fd.Type.Params.List)-1]
+		if len(last.Names) > 1 {
+			return false
+		}
+		if _, isEll := last.Type.(*ast.Ellipsis); !isEll {
+			return false
+		}
 	}
 	if fd.Recv != nil && (len(fd.Recv.List) != 1 || len(fd.Recv.List[0].Names) > 1) {
 		return false
 	}
 	ok := true
 	n := 0
+	hasDefer := false
+	lits := map[*ast.FuncLit]bool{}
+	inLit := func(m ast.Node) bool {
+		for l := range lits {
+			if l.Pos() <= m.Pos() && m.End() <= l.End() {
+				return true
+			}
+		}
+		return false
+	}
 	ast.Inspect(fd.Body, func(m ast.Node) bool {
 		switch x := m.(type) {
-		case *ast.DeferStmt, *ast.LabeledStmt:
-			ok = false
+		case *ast.FuncLit:
+			lits[x] = true // its defers, labels and gotos are its own
+		case *ast.DeferStmt:
+			if !inLit(x) {
+				hasDefer = true
+			}
+		case *ast.LabeledStmt:
+			if !inLit(x) {
+				ok = false
+			}
 		case *ast.BranchStmt:
-			if x.Tok == token.GOTO || x.Label != nil {
+			if (x.Tok == token.GOTO || x.Label != nil) && !inLit(x) {
 				ok = false
 			}
 		case *ast.CallExpr:
-			if id, isId := x.Fun.(*ast.Ident); isId && id.Name == "recover" {
+			if id, isId := x.Fun.(*ast.Ident); isId && id.Name == "recover" && !inLit(x) {
 				ok = false
 			}
 			if in.info.Uses[identOf(x.Fun)] == fo { // direct recursion
@@ -413,8 +471,47 @@ func (in *inliner) eligible(fd *ast.FuncDecl, fo types.Object) bool {
 	if n > 120 {
 		return false
 	}
+	if ok && hasDefer {
+		// a helper with defers and no results can still stand in for a call that is the
+		// last statement of a function body: its defers then run where they ran before
+		if sig.Results().Len() == 0 && !in.isClosureDecl(fd) {
+			if in.deferHelpers == nil {
+				in.deferHelpers = map[types.Object]*ast.FuncDecl{}
+			}
+			in.deferHelpers[fo] = fd
+		}
+		return false
+	}
 	// named results must all be named or all unnamed (Go guarantees); parameters may be blank
 	return ok
+}
+
+func (in *inliner) isClosureDecl(fd *ast.FuncDecl) bool { return in.isClosure[fd] }
+
+// lastStmts: the statements that end the body of a function or function literal
+// without results (per package, computed once).
+func (in *inliner) lastStmts() map[ast.Stmt]bool {
+	if in.lastOfBody != nil {
+		return in.lastOfBody
+	}
+	in.lastOfBody = map[ast.Stmt]bool{}
+	for _, f := range in.pk.Syntax {
+		ast.Inspect(f, func(n ast.Node) bool {
+			var body *ast.BlockStmt
+			var ft *ast.FuncType
+			switch x := n.(type) {
+			case *ast.FuncDecl:
+				body, ft = x.Body, x.Type
+			case *ast.FuncLit:
+				body, ft = x.Body, x.Type
+			}
+			if body != nil && len(body.List) > 0 && (ft.Results == nil || len(ft.Results.List) == 0) {
+				in.lastOfBody[body.List[len(body.List)-1]] = true
+			}
+			return true
+		})
+	}
+	return in.lastOfBody
 }
 
 // closures registers the function literals of fd that are bound exactly once to
@@ -684,6 +781,26 @@ func (in *inliner) expr(x ast.Expr, r repl) ast.Expr {
 	case *ast.CallExpr:
 		if e := in.exprHelper(v, r); e != nil {
 			return e
+		}
+		if v.Ellipsis.IsValid() && len(v.Args) > 0 {
+			// f(a, rest...) where rest is a variadic parameter bound to the caller's extra
+			// arguments: they are passed on one by one
+			if id, isId := v.Args[len(v.Args)-1].(*ast.Ident); isId {
+				if obj := in.info.Uses[id]; obj != nil {
+					for i := len(in.frames) - 1; i >= 0; i-- {
+						if t, ok := in.frames[i][obj]; ok {
+							if elts, isPack := in.packs[t]; isPack {
+								c := &ast.CallExpr{Fun: in.expr(v.Fun, r), Args: in.exprs(v.Args[:len(v.Args)-1], r)}
+								for _, e := range elts {
+									c.Args = append(c.Args, in.expr(e, nil))
+								}
+								return c
+							}
+							break
+						}
+					}
+				}
+			}
 		}
 		c := &ast.CallExpr{Fun: in.expr(v.Fun, r), Args: in.exprs(v.Args, r)}
 		if v.Ellipsis.IsValid() {
@@ -977,6 +1094,23 @@ func (in *inliner) one(s ast.Stmt) []ast.Stmt {
 				return []ast.Stmt{&ast.BlockStmt{List: body}}
 			}
 		}
+		if call, isCall := ast.Unparen(v.X).(*ast.CallExpr); isCall && len(in.deferHelpers) > 0 && len(in.frames) == 0 && in.lastStmts()[v] {
+			// the call ends a function body: the helper's defers run at the same point
+			var fo types.Object
+			switch f := ast.Unparen(call.Fun).(type) {
+			case *ast.Ident:
+				fo = in.info.Uses[f]
+			case *ast.SelectorExpr:
+				if sel, ok := in.info.Selections[f]; ok && sel.Kind() == types.MethodVal {
+					fo = sel.Obj()
+				}
+			}
+			if fd := in.deferHelpers[fo]; fd != nil && !in.busy[fd] {
+				if body := in.inlineBody(fd, call, nil, true); body != nil {
+					return []ast.Stmt{&ast.BlockStmt{List: body}}
+				}
+			}
+		}
 	case *ast.ReturnStmt:
 		if len(v.Results) == 1 {
 			if call, fd := in.helperCall(v.Results[0]); call != nil {
@@ -986,6 +1120,18 @@ func (in *inliner) one(s ast.Stmt) []ast.Stmt {
 			}
 		}
 	case *ast.IfStmt:
+		// `if h(...); cond { ... }`
+		if es, ok := v.Init.(*ast.ExprStmt); ok {
+			if call, fd := in.helperCall(es.X); call != nil {
+				if body := in.inlineBody(fd, call, nil, false); body != nil {
+					n := &ast.IfStmt{Cond: in.expr(v.Cond, nil), Body: &ast.BlockStmt{List: in.list(v.Body.List)}}
+					if v.Else != nil {
+						n.Else = in.elseStmt(v.Else, false)
+					}
+					return []ast.Stmt{&ast.BlockStmt{List: []ast.Stmt{&ast.BlockStmt{List: body}, n}}}
+				}
+			}
+		}
 		// `if x, err := h(...); cond { ... }`
 		if as, ok := v.Init.(*ast.AssignStmt); ok && len(as.Rhs) == 1 && as.Tok == token.DEFINE {
 			if call, fd := in.helperCall(as.Rhs[0]); call != nil {
@@ -1206,7 +1352,10 @@ func (in *inliner) candidate(s ast.Stmt, done repl) *ast.CallExpr {
 			if found != nil || stop {
 				return
 			}
-			if fd := in.helperOf(v); fd != nil && !in.busy[fd] && !in.isExprHelper(fd) {
+			if fd := in.helperOf(v); fd != nil && !in.busy[fd] && (!in.isExprHelper(fd) || in.impureArgs(v)) {
+				// (a single-expression helper whose arguments cannot be written in place
+				// of its parameters - a composite literal receiver, a call - is expanded
+				// like any other helper, its parameters bound to locals)
 				if _, isTuple := in.info.TypeOf(v).(*types.Tuple); !isTuple {
 					found = v
 					return
@@ -1297,9 +1446,6 @@ func (in *inliner) stable(x ast.Expr) bool {
 }
 
 func (in *inliner) helperOf(call *ast.CallExpr) *ast.FuncDecl {
-	if call.Ellipsis.IsValid() {
-		return nil
-	}
 	var fo types.Object
 	switch f := ast.Unparen(call.Fun).(type) {
 	case *ast.Ident:
@@ -1413,11 +1559,59 @@ func freeNames(x ast.Expr, into map[string]bool) {
 // in the helper's body.
 func (in *inliner) assigned(fd *ast.FuncDecl, obj types.Object) bool {
 	hit := false
+	// a struct or array held by value: writing one of its parts writes the parameter
+	byValue := false
+	switch obj.Type().Underlying().(type) {
+	case *types.Struct, *types.Array:
+		byValue = true
+	}
+	partOf := func(x ast.Expr) bool {
+		if !byValue {
+			return false
+		}
+		for {
+			switch y := ast.Unparen(x).(type) {
+			case *ast.SelectorExpr:
+				if s, ok := in.info.Selections[y]; ok && s.Indirect() {
+					return false // through a pointer field: not part of the value
+				}
+				x = y.X
+				continue
+			case *ast.IndexExpr:
+				if _, isArr := in.info.TypeOf(y.X).Underlying().(*types.Array); !isArr {
+					return false
+				}
+				x = y.X
+				continue
+			case *ast.Ident:
+				return in.info.Uses[y] == obj
+			}
+			return false
+		}
+	}
 	ast.Inspect(fd.Body, func(n ast.Node) bool {
+		switch v := n.(type) {
+		case *ast.CallExpr:
+			// a pointer-receiver method called on (a part of) the value takes its address
+			if sel, ok := ast.Unparen(v.Fun).(*ast.SelectorExpr); ok && byValue {
+				if s, ok := in.info.Selections[sel]; ok && s.Kind() == types.MethodVal {
+					if sig, ok := s.Obj().Type().(*types.Signature); ok && sig.Recv() != nil {
+						if _, ptr := sig.Recv().Type().(*types.Pointer); ptr && partOf(sel.X) {
+							if _, isPtr := in.info.TypeOf(sel.X).(*types.Pointer); !isPtr {
+								hit = true
+							}
+						}
+					}
+				}
+			}
+		}
 		switch v := n.(type) {
 		case *ast.AssignStmt:
 			for _, l := range v.Lhs {
 				if id, ok := ast.Unparen(l).(*ast.Ident); ok && in.info.Uses[id] == obj {
+					hit = true
+				}
+				if partOf(l) {
 					hit = true
 				}
 			}
@@ -1425,8 +1619,14 @@ func (in *inliner) assigned(fd *ast.FuncDecl, obj types.Object) bool {
 			if id, ok := ast.Unparen(v.X).(*ast.Ident); ok && in.info.Uses[id] == obj {
 				hit = true
 			}
+			if partOf(v.X) {
+				hit = true
+			}
 		case *ast.UnaryExpr:
 			if id, ok := ast.Unparen(v.X).(*ast.Ident); ok && v.Op == token.AND && in.info.Uses[id] == obj {
+				hit = true
+			}
+			if v.Op == token.AND && partOf(v.X) {
 				hit = true
 			}
 		case *ast.RangeStmt:
@@ -1434,6 +1634,71 @@ func (in *inliner) assigned(fd *ast.FuncDecl, obj types.Object) bool {
 				if id, ok := k.(*ast.Ident); ok && in.info.Uses[id] == obj {
 					hit = true
 				}
+			}
+		}
+		return !hit
+	})
+	return hit
+}
+
+// asserted: the parameter is the operand of a type assertion or type switch,
+// or is compared with another value (comparing needs the interface type).
+func (in *inliner) asserted(fd *ast.FuncDecl, obj types.Object) bool {
+	hit := false
+	is := func(x ast.Expr) bool {
+		id, ok := ast.Unparen(x).(*ast.Ident)
+		return ok && in.info.Uses[id] == obj
+	}
+	ast.Inspect(fd.Body, func(n ast.Node) bool {
+		switch v := n.(type) {
+		case *ast.TypeAssertExpr:
+			if is(v.X) {
+				hit = true
+			}
+		case *ast.BinaryExpr:
+			if (v.Op == token.EQL || v.Op == token.NEQ) && (is(v.X) || is(v.Y)) {
+				hit = true
+			}
+		}
+		return !hit
+	})
+	return hit
+}
+
+// indexed: an element of the (slice) parameter is written or has its address
+// taken in the helper's body.
+func (in *inliner) indexed(fd *ast.FuncDecl, obj types.Object) bool {
+	hit := false
+	isElem := func(x ast.Expr) bool {
+		for {
+			switch v := ast.Unparen(x).(type) {
+			case *ast.IndexExpr:
+				x = v.X
+				continue
+			case *ast.SliceExpr:
+				x = v.X
+				continue
+			case *ast.Ident:
+				return in.info.Uses[v] == obj
+			}
+			return false
+		}
+	}
+	ast.Inspect(fd.Body, func(n ast.Node) bool {
+		switch v := n.(type) {
+		case *ast.AssignStmt:
+			for _, l := range v.Lhs {
+				if _, isId := ast.Unparen(l).(*ast.Ident); !isId && isElem(l) {
+					hit = true
+				}
+			}
+		case *ast.IncDecStmt:
+			if isElem(v.X) {
+				hit = true
+			}
+		case *ast.UnaryExpr:
+			if v.Op == token.AND && isElem(v.X) {
+				hit = true
 			}
 		}
 		return !hit
@@ -1469,7 +1734,11 @@ func (in *inliner) bind(fd *ast.FuncDecl, call *ast.CallExpr, r repl, exprOnly b
 			return true
 		}
 		obj := in.info.Defs[nm]
-		if in.stable(argSrc) && !in.assigned(fd, obj) {
+		isNilArg := false
+		if tv, ok := in.info.Types[argSrc]; ok && tv.IsNil() {
+			isNilArg = true // an untyped nil is not written in place of the parameter (`nil(x)`, `nil != nil`)
+		}
+		if in.stable(argSrc) && !in.assigned(fd, obj) && !isNilArg {
 			for n := range free {
 				if names[n] {
 					in.renameLocals(fd, n, fr) // the helper's own local of that name gets another name
@@ -1487,8 +1756,28 @@ func (in *inliner) bind(fd *ast.FuncDecl, call *ast.CallExpr, r repl, exprOnly b
 		if exprOnly {
 			return false
 		}
+		typX := in.expr(typ, nil)
+		// an interface parameter that receives a value of a concrete type of this
+		// package keeps that type (the parameter is never re-assigned or asserted on):
+		// the method calls on it are then calls of the concrete methods
+		if _, isIface := obj.Type().Underlying().(*types.Interface); isIface && !isNilArg && !in.assigned(fd, obj) && !in.asserted(fd, obj) {
+			if ct := in.info.TypeOf(argSrc); ct != nil {
+				elem, ptr := ct, false
+				if p, isPtr := ct.(*types.Pointer); isPtr {
+					elem, ptr = p.Elem(), true
+				}
+				if named, isNamed := elem.(*types.Named); isNamed && named.Obj().Pkg() == in.pk.Types && named.TypeArgs().Len() == 0 {
+					if _, isI := named.Underlying().(*types.Interface); !isI {
+						typX = ast.NewIdent(named.Obj().Name())
+						if ptr {
+							typX = &ast.StarExpr{X: typX}
+						}
+					}
+				}
+			}
+		}
 		pre = append(pre, &ast.DeclStmt{Decl: &ast.GenDecl{Tok: token.VAR, Specs: []ast.Spec{
-			&ast.ValueSpec{Names: []*ast.Ident{ast.NewIdent(nm.Name)}, Type: in.expr(typ, nil), Values: []ast.Expr{arg}}}}}, blank(nm.Name))
+			&ast.ValueSpec{Names: []*ast.Ident{ast.NewIdent(nm.Name)}, Type: typX, Values: []ast.Expr{arg}}}}}, blank(nm.Name))
 		declared[nm.Name] = true
 		return true
 	}
@@ -1527,10 +1816,78 @@ func (in *inliner) bind(fd *ast.FuncDecl, call *ast.CallExpr, r repl, exprOnly b
 		}
 	}
 	ai := 0
-	for _, f := range fd.Type.Params.List {
+	for fi, f := range fd.Type.Params.List {
 		ns := f.Names
 		if len(ns) == 0 {
 			ns = []*ast.Ident{nil}
+		}
+		if ell, isEll := f.Type.(*ast.Ellipsis); isEll && fi == len(fd.Type.Params.List)-1 {
+			// the variadic parameter: []T{extra arguments}, each extra argument a stable
+			// expression or a temporary evaluated once, in order
+			sliceT := &ast.ArrayType{Elt: ell.Elt}
+			nm := ns[0]
+			if call.Ellipsis.IsValid() {
+				if ai != len(call.Args)-1 || !bindOne(nm, sliceT, in.expr(call.Args[ai], r), call.Args[ai]) {
+					return nil, nil
+				}
+				return fr, pre
+			}
+			if exprOnly {
+				for _, a := range call.Args[min(ai, len(call.Args)):] {
+					if !in.stable(a) {
+						return nil, nil
+					}
+				}
+			}
+			var elts []ast.Expr
+			for ; ai < len(call.Args); ai++ {
+				a := call.Args[ai]
+				free := map[string]bool{}
+				freeNames(a, free)
+				for n := range free {
+					if declared[n] {
+						return nil, nil
+					}
+				}
+				if in.stable(a) {
+					for n := range free {
+						if names[n] {
+							in.renameLocals(fd, n, fr)
+						}
+					}
+					elts = append(elts, in.expr(a, r))
+					continue
+				}
+				tmp := in.fresh("va_h")
+				pre = append(pre, &ast.DeclStmt{Decl: &ast.GenDecl{Tok: token.VAR, Specs: []ast.Spec{
+					&ast.ValueSpec{Names: []*ast.Ident{ast.NewIdent(tmp)}, Type: in.expr(ell.Elt, nil), Values: []ast.Expr{in.expr(a, r)}}}}}, blank(tmp))
+				elts = append(elts, ast.NewIdent(tmp))
+			}
+			if nm == nil || nm.Name == "_" {
+				return fr, pre
+			}
+			obj := in.info.Defs[nm]
+			var lit ast.Expr
+			if len(elts) == 0 {
+				lit = &ast.CallExpr{Fun: &ast.ParenExpr{X: in.expr(sliceT, nil)}, Args: []ast.Expr{ast.NewIdent("nil")}}
+			} else {
+				lit = &ast.CompositeLit{Type: in.expr(sliceT, nil), Elts: elts}
+			}
+			if in.assigned(fd, obj) || in.indexed(fd, obj) {
+				if exprOnly {
+					return nil, nil
+				}
+				pre = append(pre, &ast.DeclStmt{Decl: &ast.GenDecl{Tok: token.VAR, Specs: []ast.Spec{
+					&ast.ValueSpec{Names: []*ast.Ident{ast.NewIdent(nm.Name)}, Type: in.expr(sliceT, nil), Values: []ast.Expr{lit}}}}}, blank(nm.Name))
+				declared[nm.Name] = true
+				return fr, pre
+			}
+			fr[obj] = lit
+			if in.packs == nil {
+				in.packs = map[ast.Expr][]ast.Expr{}
+			}
+			in.packs[lit] = elts
+			return fr, pre
 		}
 		for _, nm := range ns {
 			if ai >= len(call.Args) {
@@ -1584,19 +1941,37 @@ func (in *inliner) expandAssign(lhs []ast.Expr, define bool, call *ast.CallExpr,
 	for i, l := range lhs {
 		switch v := ast.Unparen(l).(type) {
 		case *ast.Ident:
-			if v.Name != "_" && names[v.Name] {
-				clash = append(clash, v.Name) // the helper declares a local of that name: it is renamed
-			}
 			if v.Name == "_" {
 				targets = append(targets, ast.NewIdent("_"))
 				continue
 			}
+			// (inside an expansion the variable may have been given another name)
+			mapped := in.expr(v, nil)
+			mid, isId := mapped.(*ast.Ident)
+			if !isId {
+				if !in.stable(v) {
+					return nil
+				}
+				free := map[string]bool{}
+				freeNames(mapped, free)
+				for n := range free {
+					if names[n] {
+						clash = append(clash, n)
+					}
+				}
+				allFresh = false
+				targets = append(targets, mapped)
+				continue
+			}
+			if names[mid.Name] {
+				clash = append(clash, mid.Name) // the helper declares a local of that name: it is renamed
+			}
 			if define && in.info.Defs[v] != nil {
-				decls = append(decls, varDecl(v.Name, in.expr(resTypes[i], nil)))
+				decls = append(decls, varDecl(mid.Name, in.expr(resTypes[i], nil)))
 			} else {
 				allFresh = false
 			}
-			targets = append(targets, ast.NewIdent(v.Name))
+			targets = append(targets, ast.NewIdent(mid.Name))
 		default:
 			if !in.stable(l) {
 				return nil
@@ -1668,8 +2043,23 @@ func (in *inliner) inlineBodyR(fd *ast.FuncDecl, call *ast.CallExpr, targets []a
 				continue
 			}
 		}
-		pre = append(pre, varDecl(nm.Name, in.expr(resTypes[i], nil)), blank(nm.Name))
-		namedTargets = append(namedTargets, ast.NewIdent(nm.Name))
+		// a named result whose name is also the name of something the call's targets
+		// mention gets a name of its own: declared under its own name it would shadow
+		// the target (`at, ok = w.next()` with results named at, ok)
+		local := nm.Name
+		for _, t := range targets {
+			free := map[string]bool{}
+			if t != nil {
+				freeNames(t, free)
+			}
+			if free[nm.Name] {
+				local = in.fresh(nm.Name + "_h")
+				fr[obj] = ast.NewIdent(local)
+				break
+			}
+		}
+		pre = append(pre, varDecl(local, in.expr(resTypes[i], nil)), blank(local))
+		namedTargets = append(namedTargets, ast.NewIdent(local))
 	}
 	in.calls++
 	in.expanded[in.info.Defs[fd.Name]]++
@@ -1679,6 +2069,10 @@ func (in *inliner) inlineBodyR(fd *ast.FuncDecl, call *ast.CallExpr, targets []a
 	body := in.list(fd.Body.List)
 	in.frames = in.frames[:len(in.frames)-1]
 	delete(in.busy, fd)
+	nres := 0
+	if fd.Type.Results != nil {
+		nres = fd.Type.Results.NumFields()
+	}
 	leaf := func(ret *ast.ReturnStmt) []ast.Stmt {
 		res := ret.Results
 		if len(res) == 0 && len(named) > 0 {
@@ -1692,8 +2086,23 @@ func (in *inliner) inlineBodyR(fd *ast.FuncDecl, call *ast.CallExpr, targets []a
 		if tail {
 			return []ast.Stmt{&ast.ReturnStmt{Results: res}}
 		}
-		if len(targets) == 0 || len(res) == 0 {
+		if len(res) == 0 {
 			return nil
+		}
+		if len(targets) == 0 {
+			// the caller discards the results; what the return statement evaluates is kept
+			var out []ast.Stmt
+			for _, x := range res {
+				if !in.impure(x) {
+					continue
+				}
+				if _, isCall := ast.Unparen(x).(*ast.CallExpr); isCall && len(res) == 1 && nres > 1 {
+					out = append(out, &ast.ExprStmt{X: x}) // return f() handing on several values
+				} else {
+					out = append(out, &ast.AssignStmt{Lhs: []ast.Expr{ast.NewIdent("_")}, Tok: token.ASSIGN, Rhs: []ast.Expr{x}})
+				}
+			}
+			return out
 		}
 		if len(res) == len(targets) {
 			// drop `x = x`
